@@ -507,6 +507,12 @@ func (r *libRec) scenarioSized(i, n int, unique bool, kind string) {
 	for c := 1; c <= 4; c++ {
 		r.exec(1, idx, vx.Query{E: taut(c), GB: []int{c}})
 	}
+	// many partial groups before the next column is applied (40 x 7 x 5 value combinations)
+	if n <= 2500 {
+		r.exec(1, idx, vx.Query{E: taut(1), GB: []int{4, 3}})
+		r.exec(1, idx, vx.Query{E: &vx.Expr{Op: "not", E: &vx.Expr{Op: "eq", Col: 2, Val: 2}}, GB: []int{4, 3, 1}})
+		r.exec(1, idx, vx.Query{E: taut(3), GB: []int{3, 4, 1}})
+	}
 	if unique && n <= 3000 {
 		// exact row membership: group by the unique column under a single test
 		r.exec(1, idx, vx.Query{E: &vx.Expr{Op: "eq", Col: 1, Val: 2}, GB: []int{5}})
